@@ -56,6 +56,9 @@ def confirm(wt, patch, demo):
              "cargo test -p %s --test %s --offline --features use-std,heapless,use-crc,experimental-derive" % (crate, name),
              "cargo test -p %s --test %s --offline --features use-std,derive" % (crate, name),
              "cargo test -p postcard-schema --offline --features derive,use-std,postcard/experimental-derive --test %s" % name,
+             "cargo test -p postcard --offline --features use-std,embedded-io-06 --test %s" % name,
+             "cargo test -p postcard-schema --offline --features uuid-v1_0,uuid_v1_0/serde,derive,use-std --test %s" % name,
+             "cargo test -p postcard-schema --offline --features nalgebra-v0_33,derive,use-std --test %s" % name,
              "cargo test -p %s --test %s --offline" % (crate, name)]
     chosen = None
     for c in cands:
@@ -101,7 +104,9 @@ def detect(patch, props, stages="native", tier="quick", seed="1"):
             m = re.search(r"^VIOLATION property=\S+ replay=(\S+)", out, re.M)
             if m and os.path.exists(m.group(1)):
                 # the replay command must reproduce the violation on the changed tree ...
-                keep = m.group(1) + ".kept"
+                os.makedirs("/tmp/pcv_replays", exist_ok=True)
+                # file name keeps the stage marker (_native_) so the orchestrator replays on that stage
+                keep = os.path.join("/tmp/pcv_replays", "%s_%d_%s" % (p, int(time.time()), os.path.basename(m.group(1))))
                 shutil.copy(m.group(1), keep)
                 rc2, out2 = sh("./check %s --replay %s" % (p, keep), cwd=VERIF, env=env, timeout=3600)
                 replay_ok = {"with_change_exit": rc2}
